@@ -4,6 +4,8 @@
  *   P <start> <old> <fmt> <nargs> <arg>... T <n> (<frag> <val> <out>)...   print_to_with(sink, start, fmt, args); the table is for the model only
  *   K ...same...                                                           same, plus the claim "sink unchanged when FormatError is raised" (known finding F29)
  *   M <start> <old> <fmt> <nargs> <arg>...                                 format outside the grammar, run in a forked child: does it leave its buffers?
+ *   J <start> <old> <fmt> <nargs> <arg>...                                 a specification libc rejects (e.g. %lc with a wide character the locale cannot
+ *                                                                          encode), forked: is the String sink still a C string afterwards? (candidate finding)
  *   arg ::= i <int64> | f <16 hex digits: bits of the double> | s <bytes> | A <n> <arg>... | U <n> <arg>... | L <n> <arg>...
  *
  * For a P/K op the format is first split by an independent reference parser of the grammar
@@ -501,6 +503,41 @@ static void run_M(OpD* op, size_t line) {
   I("M line=%zu status=%d", line, st);
 }
 
+/* A specification that libc itself rejects: vsnprintf returns -1, String_Format_To computes realloc(val, pos + (-1) + 1). */
+static void run_J(OpD* op, size_t line) {
+  fflush(stdout);
+  int pfd[2]; if (pipe(pfd)) { perror("pipe"); exit(2); }
+  pid_t pid = fork();
+  if (pid == 0) {
+    close(pfd[0]);
+    int dn = open("/dev/null", 1); if (dn >= 0) { dup2(dn, 2); }
+    alarm(20);
+    for (int k = 0; k < op->nargs; k++) build(op->args[k]);
+    var* items = calloc((size_t)op->nargs + 1, sizeof(var));
+    for (int k = 0; k < op->nargs; k++) items[k] = op->args[k]->obj;
+    items[op->nargs] = Terminal;
+    var args = $(Tuple, items);
+    var s = new_raw(String, $S((char*)op->old.p)); var exc; int pos = 0;
+    V_TRY(exc, pos = print_to_with(s, op->start, (const char*)op->fmt.p, args));
+    (void)pos;
+    dprintf(pfd[1], "%s", v_exc_name(exc));
+    volatile size_t l = strlen(((struct String*)s)->val);     /* the String must still be a C string */
+    dprintf(pfd[1], " len=%zu", (size_t)l);
+    _exit(0);
+  }
+  close(pfd[1]);
+  char buf[128]; ssize_t n = read(pfd[0], buf, sizeof buf - 1); if (n < 0) n = 0; buf[n] = 0;
+  { char more[64]; ssize_t m; while ((m = read(pfd[0], more, sizeof more)) > 0 && (size_t)n + (size_t)m < sizeof buf - 1) { memcpy(buf + n, more, (size_t)m); n += m; buf[n] = 0; } }
+  close(pfd[0]);
+  int st = 0; waitpid(pid, &st, 0);
+  O("J");
+  int died = WIFSIGNALED(st) || (WIFEXITED(st) && WEXITSTATUS(st) != 0);
+  I("J line=%zu status=%d child=%s", line, st, buf);
+  if (died) X("sig=fmt-libc-reject line=%zu what=libc rejects the specification; print_to_with raised %s and left the String sink without a terminator (reading it back leaves the buffer, child status %d)", line, buf[0] ? buf : "?", st);
+  else if (strncmp(buf, "FormatError", 11) != 0 && strncmp(buf, "none", 4) != 0)
+    X("sig=fmt-libc-reject line=%zu what=libc rejects the specification; print_to_with raised %s instead of FormatError", line, buf);
+}
+
 int main(int argc, char** argv) {
   v_init();
   if (argc < 2) { fprintf(stderr, "usage: h_fmt <opfile>\n"); return 2; }
@@ -536,9 +573,9 @@ int main(int argc, char** argv) {
       }
       if (ok) run_P(&op, li + 1, tok[0][0] == 'K'); else O("bad-op");
       op_free(&op);
-    } else if (ntok > 0 && !strcmp(tok[0], "M")) {
+    } else if (ntok > 0 && (!strcmp(tok[0], "M") || !strcmp(tok[0], "J"))) {
       ok = parse_op(tok, ntok, &k, &op) && k == ntok;
-      if (ok) run_M(&op, li + 1); else O("bad-op");
+      if (!ok) O("bad-op"); else if (tok[0][0] == 'M') run_M(&op, li + 1); else run_J(&op, li + 1);
       op_free(&op);
     } else O("bad-op");
     free(tok); free(copy);
